@@ -106,6 +106,16 @@ func (p *Program) VerifyFunc(fc *FuncContract) (res *FuncResult) {
 		key := x.heapKeyPtr(pt)
 		vars[fv.Name()] = &Val{Typ: pt, T: x.sel(x.getHeap(st, key), v.T, x.so.SortOf(pt))}
 	}
+	// a closure's contract may name variables of the enclosing function; if the
+	// closure does not capture one of them (any more) it is an arbitrary value
+	if par := f.Parent(); par != nil {
+		for _, prm := range par.Params {
+			if _, ok := vars[prm.Name()]; !ok {
+				vars[prm.Name()] = x.havoc(prm.Type(), "outer_"+prm.Name(), x.b.True)
+				x.note("closure contract names enclosing variable " + prm.Name() + " that the closure does not capture: treated as arbitrary")
+			}
+		}
+	}
 	fr.params = vars
 	fr.entry = st.clone()
 	ri := &rootInfo{vars: vars, pkg: fnPkg(f), fn: f, fc: fc, entry: fr.entry}
@@ -349,6 +359,15 @@ func (r *FuncResult) SMTTextWith(o *Obligation, extra []*smt.Term, filter bool) 
 		hyps = kept
 	}
 	roots := append(hyps, extra...)
+	// real model: skolem constants of float sort are finite (strictly inside +-Inf)
+	if x.ufDecl["infax"] && !x.fp {
+		inf := x.b.Const("math_inf", "Real")
+		for _, c := range x.skolems {
+			if c.Sort == "Real" {
+				roots = append(roots, x.b.And(x.b.Cmp("<", c, inf), x.b.Cmp("<", x.b.Neg(inf), c)))
+			}
+		}
+	}
 	roots = append(roots, goal)
 	pr := x.b.NewPrinter()
 	sb.WriteString(pr.Script(roots))
